@@ -108,6 +108,23 @@ def warning_witness(ck):
         ck.violation(["no-overlap-warning"], "supplying a column that overrides a rule raises no FunctionsAndColumnsOverlapWarning", {"kind": "warn"})
 
 
+def witness_population(date):
+    """household 0: couple with two children; households 1 and 2: a married couple living apart (partners in
+    different households -- the derived family / needs unit then spans households)"""
+    import pandas as pd
+    from _gettsim.synthetic import create_synthetic_data
+    a = create_synthetic_data(n_adults=2, n_children=2, policy_year=date.year,
+                              specs_heterogeneous={"bruttolohn_m": [[2100.0, 450.0, 0.0, 0.0]]}).reset_index(drop=True)
+    b = create_synthetic_data(n_adults=2, n_children=0, policy_year=date.year,
+                              specs_heterogeneous={"bruttolohn_m": [[1500.0, 0.0]]}).reset_index(drop=True)
+    off = int(a["p_id"].max()) + 1
+    for c in b.columns:
+        if c == "p_id" or c.startswith("p_id_"):
+            b[c] = [v + off if v >= 0 else v for v in b[c]]
+    b["hh_id"] = [int(a["hh_id"].max()) + 1, int(a["hh_id"].max()) + 2]
+    return pd.concat([a, b], ignore_index=True)
+
+
 def _roundtrip(args):
     """concrete witness: compute node n, supply it back (as DataFrame column and inside a dict of Series
     whose index is not the default one), compare every other default target"""
@@ -119,8 +136,7 @@ def _roundtrip(args):
     from _gettsim.config import DEFAULT_TARGETS
     from _gettsim.synthetic import create_synthetic_data
     P, F = gt.env(date)
-    df = create_synthetic_data(n_adults=2, n_children=2, policy_year=date.year,
-                               specs_heterogeneous={"bruttolohn_m": [[2100.0, 450.0, 0.0, 0.0]]}).reset_index(drop=True)
+    df = witness_population(date)
     # every computed node of the default graph is observed, not only the default targets
     d0 = symdag.Dag(date)
     targets = sorted(t for t in d0.graph.nodes if t in d0.funcs and t != n and t not in df.columns)
@@ -152,16 +168,21 @@ def _roundtrip(args):
             bad.append(f"DataFrame input: supplying {n} = its computed values changes {t}")
     except Exception as e:   # noqa: BLE001
         bad.append(f"DataFrame input: supplying {n} raises {type(e).__name__}: {e}"[:200])
-    # (b) dict of Series whose (shared) index is sparse and unsorted; the computed column is supplied as returned
-    idx = [40, 3, 17, 9][: len(df)]
+    # (b) dict of Series whose (shared) index is sparse and unsorted; the column is supplied exactly as a first run
+    # on the same dict returned it (a coherent user workflow: whatever index the API gives back is what comes in)
+    idx = [40, 3, 17, 9, 28, 5, 77, 12][: len(df)]
     d3 = {c: pd.Series(df[c].values, index=idx, name=c) for c in df.columns}
-    d3[n] = col
     try:
+        base3 = compute_taxes_and_transfers(dict(d3), P, F, targets=targets + [n])
+        t = differs(base3)
+        if t:
+            bad.append(f"dict-of-Series input (non-default index) changes {t} relative to the DataFrame run")
+        d3[n] = base3[n]
         t = differs(compute_taxes_and_transfers(d3, P, F, targets=targets))
         if t:
             bad.append(f"dict-of-Series input (non-default index): supplying {n} as returned by a first run changes {t}")
     except Exception as e:   # noqa: BLE001
-        bad.append(f"dict-of-Series input: supplying {n} raises {type(e).__name__}: {e}"[:200])
+        bad.append(f"dict-of-Series input: supplying {n} as returned by a first run on the same data raises {type(e).__name__}: {e}"[:200])
     return n, bad, None
 
 
@@ -172,7 +193,8 @@ def witness_roundtrips(ck, tier, rnd):
     d0 = symdag.Dag(date)
     nodes = sorted(n for n in d0.graph.nodes if n in d0.funcs)
     rnd.shuffle(nodes)
-    pick = ["geburtsdatum", "alter_monate"] + (nodes[:10] if tier == "quick" else nodes)
+    ids = [f"{g}_id" for g in gt.GROUPS if f"{g}_id" in d0.graph.nodes]
+    pick = ["geburtsdatum", "alter_monate"] + ids + (nodes[:10] if tier == "quick" else nodes)
     pick = list(dict.fromkeys(n for n in pick if n in d0.graph.nodes))
     with multiprocessing.get_context("fork").Pool(common.JOBS) as pool:
         res = pool.map(_roundtrip, [(date, n) for n in pick], chunksize=1)
